@@ -220,6 +220,12 @@ pub fn check(ctx: &mut Ctx) -> i32 {
         print_summary(ctx, &acc);
         return EXIT_VIOLATION;
     }
+    if let Some(code) = crate::props::l3phases::fire_and_forget_phase(ctx, &acc, "C19") {
+        if code != EXIT_OK {
+            write_evidence(ctx, &acc, RULE, ASSUME, 1);
+            return code;
+        }
+    }
     if let Some(code) = crate::props::l3phases::active_connection_phase(ctx, &acc, true) {
         if code != EXIT_OK {
             write_evidence(ctx, &acc, RULE, ASSUME, 1);
